@@ -723,12 +723,22 @@ def _replacement_sequence(fd, port):
         if isinstance(a1, ast.Name) and a1.id in env:
             a1 = env[a1.id]
         src = a0.value if isinstance(a0, ast.Constant) else (a0.args[0].value if isinstance(a0, ast.Call) and dotted(a0.func) == '__regex__' else None)
-        glob = True if isinstance(a0, ast.Constant) and port == 'py' else (isinstance(a0, ast.Call) and dotted(a0.func) == '__regex__' and 'g' in a0.args[1].value)
+        if port == 'js' and isinstance(a0, ast.Constant) and isinstance(src, str):
+            # a literal search string in JavaScript: spell it like the regex sources the tables use
+            src = {'\n': '\\n', '\r': '\\r', '\t': '\\t', '\\': '\\\\'}.get(src, src)
+        glob = True if isinstance(a0, ast.Constant) and (port == 'py' or getattr(n, 'literal_all', False) or n.func.attr == 'replaceAll') else (isinstance(a0, ast.Call) and dotted(a0.func) == '__regex__' and 'g' in a0.args[1].value)
         dst = a1.value if isinstance(a1, ast.Constant) else None
         out.append((key, src, dst, glob, n))
 
     def calls_in(node, key, env):
         found = [n for n in ast.walk(node) if isinstance(n, ast.Call) and isinstance(n.func, ast.Attribute) and n.func.attr in ('replace', 'replaceAll') and len(n.args) == 2]
+        # helper-style replacement: replace_all(subject, search, replacement) - literal, all occurrences
+        for n in ast.walk(node):
+            if isinstance(n, ast.Call) and dotted(n.func) == 'replace_all' and len(n.args) == 3:
+                twin = ast.Call(func=ast.Attribute(value=n.args[0], attr='replaceAll', ctx=ast.Load()), args=[n.args[1], n.args[2]], keywords=[])
+                ast.copy_location(twin, n)
+                twin.literal_all = True
+                found.append(twin)
         # inner calls of a chain run first: deeper receiver = earlier
         def depth(n):
             d, r = 0, n.func.value
